@@ -1,0 +1,259 @@
+//! Verification hooks. Only compiled with `--cfg mrecordlog_verif`.
+//!
+//! Thin wrappers around `std::fs::{File, OpenOptions}` that forward every call
+//! unchanged and append what they forwarded to a thread-local trace, plus an
+//! optional fault plan that makes the n-th `read_dir` / `open` / `read_exact`
+//! fail. Nothing here changes the behaviour of the crate unless a fault plan
+//! is armed.
+
+use std::cell::RefCell;
+use std::io::{self, Read, Seek, SeekFrom, Write};
+use std::path::Path;
+
+#[derive(Clone, Debug, PartialEq, Eq)]
+pub enum Event {
+    ReadDir,
+    Create(String),
+    OpenRw(String),
+    SetLen(String, u64),
+    Write(String, u64, Vec<u8>),
+    /// file, offset, requested length, success
+    ReadExact(String, u64, usize, bool),
+    Flush(String),
+    SyncData(String),
+    SyncDir,
+    Unlink(String),
+    /// queue whose position is recorded by the GC pass (HashMap iteration order)
+    GcQueue(String),
+}
+
+#[derive(Clone, Copy, Debug, PartialEq, Eq)]
+pub enum FaultSite {
+    ReadDir,
+    Open,
+    Read,
+}
+
+#[derive(Clone, Copy, Debug)]
+pub struct FaultPlan {
+    pub site: FaultSite,
+    /// 0-based index of the first failing call of that site
+    pub nth: usize,
+    /// fail every call from `nth` on (true) or only that one (false)
+    pub persistent: bool,
+    pub kind: io::ErrorKind,
+}
+
+#[derive(Default)]
+struct Hooks {
+    trace: Vec<Event>,
+    plan: Option<FaultPlan>,
+    counts: [usize; 3],
+    recording: bool,
+}
+
+thread_local! {
+    static HOOKS: RefCell<Hooks> = RefCell::new(Hooks { recording: true, ..Default::default() });
+}
+
+pub fn take_events() -> Vec<Event> {
+    HOOKS.with(|h| std::mem::take(&mut h.borrow_mut().trace))
+}
+
+pub fn set_recording(on: bool) {
+    HOOKS.with(|h| h.borrow_mut().recording = on)
+}
+
+pub fn arm_fault(plan: Option<FaultPlan>) {
+    HOOKS.with(|h| {
+        let mut h = h.borrow_mut();
+        h.plan = plan;
+        h.counts = [0; 3];
+    })
+}
+
+pub fn site_counts() -> [usize; 3] {
+    HOOKS.with(|h| h.borrow().counts)
+}
+
+fn push(ev: Event) {
+    HOOKS.with(|h| {
+        let mut h = h.borrow_mut();
+        if h.recording {
+            h.trace.push(ev);
+        }
+    })
+}
+
+/// Counts one call of `site`; returns the injected error if the plan says so.
+pub fn fault_point(site: FaultSite) -> io::Result<()> {
+    HOOKS.with(|h| {
+        let mut h = h.borrow_mut();
+        let idx = site as usize;
+        let n = h.counts[idx];
+        h.counts[idx] += 1;
+        if let Some(plan) = h.plan {
+            if plan.site == site && (n == plan.nth || (plan.persistent && n > plan.nth)) {
+                return Err(io::Error::new(plan.kind, "injected fault"));
+            }
+        }
+        Ok(())
+    })
+}
+
+pub fn on_read_dir() -> io::Result<()> {
+    push(Event::ReadDir);
+    fault_point(FaultSite::ReadDir)
+}
+
+pub fn on_unlink(path: &Path) {
+    push(Event::Unlink(name_of(path)));
+}
+
+pub fn note_gc_queue(queue: &str) {
+    push(Event::GcQueue(queue.to_string()));
+}
+
+pub const fn num_blocks_per_file() -> usize {
+    crate::rolling::NUM_BLOCKS_PER_FILE_VERIF
+}
+
+pub fn record_meta_size() -> usize {
+    crate::mem::RECORD_META_SIZE
+}
+
+fn name_of(path: &Path) -> String {
+    path.file_name()
+        .map(|n| n.to_string_lossy().into_owned())
+        .unwrap_or_default()
+}
+
+pub struct File {
+    inner: std::fs::File,
+    name: String,
+    is_dir: bool,
+}
+
+impl File {
+    pub fn set_len(&self, len: u64) -> io::Result<()> {
+        let res = self.inner.set_len(len);
+        if res.is_ok() {
+            push(Event::SetLen(self.name.clone(), len));
+        }
+        res
+    }
+
+    pub fn sync_data(&self) -> io::Result<()> {
+        let res = self.inner.sync_data();
+        if res.is_ok() {
+            if self.is_dir {
+                push(Event::SyncDir);
+            } else {
+                push(Event::SyncData(self.name.clone()));
+            }
+        }
+        res
+    }
+}
+
+impl Read for File {
+    fn read(&mut self, buf: &mut [u8]) -> io::Result<usize> {
+        self.inner.read(buf)
+    }
+
+    fn read_exact(&mut self, buf: &mut [u8]) -> io::Result<()> {
+        let pos = self.inner.stream_position().unwrap_or(u64::MAX);
+        if let Err(err) = fault_point(FaultSite::Read) {
+            push(Event::ReadExact(self.name.clone(), pos, buf.len(), false));
+            return Err(err);
+        }
+        let res = self.inner.read_exact(buf);
+        push(Event::ReadExact(
+            self.name.clone(),
+            pos,
+            buf.len(),
+            res.is_ok(),
+        ));
+        res
+    }
+}
+
+impl Write for File {
+    fn write(&mut self, buf: &[u8]) -> io::Result<usize> {
+        let pos = self.inner.stream_position().unwrap_or(u64::MAX);
+        let num_written = self.inner.write(buf)?;
+        push(Event::Write(
+            self.name.clone(),
+            pos,
+            buf[..num_written].to_vec(),
+        ));
+        Ok(num_written)
+    }
+
+    fn flush(&mut self) -> io::Result<()> {
+        let res = self.inner.flush();
+        if res.is_ok() {
+            push(Event::Flush(self.name.clone()));
+        }
+        res
+    }
+}
+
+impl Seek for File {
+    fn seek(&mut self, pos: SeekFrom) -> io::Result<u64> {
+        self.inner.seek(pos)
+    }
+}
+
+#[derive(Clone, Debug, Default)]
+pub struct OpenOptions {
+    read: bool,
+    write: bool,
+    create_new: bool,
+}
+
+impl OpenOptions {
+    #[allow(clippy::new_without_default)]
+    pub fn new() -> OpenOptions {
+        OpenOptions::default()
+    }
+
+    pub fn read(&mut self, read: bool) -> &mut Self {
+        self.read = read;
+        self
+    }
+
+    pub fn write(&mut self, write: bool) -> &mut Self {
+        self.write = write;
+        self
+    }
+
+    pub fn create_new(&mut self, create_new: bool) -> &mut Self {
+        self.create_new = create_new;
+        self
+    }
+
+    pub fn open<P: AsRef<Path>>(&self, path: P) -> io::Result<File> {
+        let path = path.as_ref();
+        let name = name_of(path);
+        let is_dir = !self.write && !self.create_new && path.is_dir();
+        if !is_dir && !self.create_new {
+            fault_point(FaultSite::Open)?;
+        }
+        let inner = std::fs::OpenOptions::new()
+            .read(self.read)
+            .write(self.write)
+            .create_new(self.create_new)
+            .open(path)?;
+        if self.create_new {
+            push(Event::Create(name.clone()));
+        } else if !is_dir {
+            push(Event::OpenRw(name.clone()));
+        }
+        Ok(File {
+            inner,
+            name,
+            is_dir,
+        })
+    }
+}
